@@ -122,6 +122,17 @@ func TestReverseCanonical(t *testing.T) {
 			if re.Panic != nil {
 				violation(rt, check, c, v, ex, "re-encoding an accepted value panicked: %v", re.Panic)
 			}
+			// inputs carrying a time stamp beyond the int64-nanosecond range are outside the property's domain (documented
+			// saturation). Where the stamp sits in a plain field it is excused field by field below; where it sits inside
+			// a collection whose order matters the saturated value may sort elsewhere (or break the order on re-encoding),
+			// so the whole input is excluded - only for mutation kinds that can plant such a stamp.
+			canPlantStamp := mut.Label == "time_beyond_int64" || mut.Label == "byte_havoc" || mut.Label == "raw_random" || mut.Label == "spliced_random_tail"
+			outOfDomain := canPlantStamp && serixgen.HasSaturatedTime(c.Root, dec.Value)
+			if re.Err != nil && outOfDomain {
+				stats.NoteAdd(check, "excluded_saturating_time_cases", 1)
+				stats.Case(check, false, "", nil, append(labels, "excluded_saturating_time_reordered")...)
+				return
+			}
 			if re.Err != nil {
 				violation(rt, check, c, v, ex, "validating decoder accepted the input but re-encoding the decoded value with validation fails: %v", re.Err)
 			}
@@ -132,7 +143,7 @@ func TestReverseCanonical(t *testing.T) {
 					labels = append(labels, "excluded_saturating_time")
 					stats.NoteAdd(check, "excluded_saturating_time_fields", int64(excused))
 				}
-				if !bytes.Equal(re.Bytes, patched) && serixgen.HasSaturatedTime(c.Root, dec.Value) && (mut.Label == "time_beyond_int64" || mut.Label == "byte_havoc" || mut.Label == "raw_random" || mut.Label == "spliced_random_tail") {
+				if !bytes.Equal(re.Bytes, patched) && outOfDomain {
 					// a stamp beyond the int64 range inside a collection the encoder sorts moves when it saturates, so the
 					// field-by-field excuse cannot line the two encodings up: the input is outside the property's domain
 					labels = append(labels, "excluded_saturating_time_reordered")
